@@ -10,12 +10,14 @@ License: Apache-2.0
 import math
 
 from datetime import datetime
+from datetime import timedelta
 
 from labella.d3_time import d3_time
 
 d3_identity = lambda x: x
-dt2milli = lambda x: x.timestamp() * 1000.0
-milli2dt = lambda x: datetime.fromtimestamp(x / 1000.0)
+d3_epoch = datetime(1970, 1, 1)
+dt2milli = lambda x: (x - d3_epoch) / timedelta(milliseconds=1)
+milli2dt = lambda x: d3_epoch + timedelta(milliseconds=x)
 
 
 def drange(start, stop, step=1):
@@ -208,8 +210,8 @@ class d3TimeScaleMilliseconds(object):
             map(
                 milli2dt,
                 range(
-                    math.ceil(int(start.timestamp() * 1000) / step) * step,
-                    int(stop.timestamp() * 1000),
+                    math.ceil(int(dt2milli(start)) / step) * step,
+                    int(dt2milli(stop)),
                     step,
                 ),
             )
@@ -465,7 +467,7 @@ class TimeScale(object):
 
     def ticks(self, interval=None, skip=None):
         extent = d3_scaleExtent(self.domain())
-        extent = list(map(lambda x: x.timestamp() * 1000, extent))
+        extent = list(map(dt2milli, extent))
         method = (
             self.tickMethod(extent, 10)
             if interval is None
